@@ -76,6 +76,14 @@ theorem entWrite_fresh (s : St) (k : Nat) (v : Int) (ts now : Int) (h : FreshAt 
       rw [← hch] at this
       exact hfresh l (by rw [hq]; exact hl) c this
 
+theorem evictWrite_fresh (s : St) (k : Nat) (v : Int) (ts now : Int) (sn : Nat) (h : FreshAt s now) :
+    FreshAt (evictWrite s k v ts now sn).1 now ∧ FreshData s.qos now (evictWrite s k v ts now sn).2.dgrams := by
+  unfold evictWrite
+  split
+  · exact ⟨h, freshData_nil _ _⟩
+  · simp only [entOut]
+    exact entWrite_fresh (evict s k sn) k v ts now (evict_fresh s k sn now h)
+
 theorem methodWrite_fresh (s : St) (k : Nat) (v : Int) (ts now : Int) (h : FreshAt s now) :
     FreshAt (methodWrite s k v ts now).1 now ∧ FreshData s.qos now (methodWrite s k v ts now).2.dgrams := by
   unfold methodWrite
@@ -85,8 +93,7 @@ theorem methodWrite_fresh (s : St) (k : Nat) (v : Int) (ts now : Int) (h : Fresh
     · split
       · exact ⟨h, freshData_nil _ _⟩
       · exact ⟨h, freshData_nil _ _⟩
-    · simp only [entOut]
-      exact entWrite_fresh (evict s k sn) k v ts now (evict_fresh s k sn now h)
+    · exact evictWrite_fresh s k v ts now sn h
   · simp only [entOut]
     exact entWrite_fresh s k v ts now h
 
@@ -99,9 +106,7 @@ theorem processPending_fresh (s : St) (now : Int) (h : FreshAt s now) :
     split
     · split
       · rename_i sn hff
-        simp only [entOut]
-        exact entWrite_fresh (evict { s with pending := none } p.key sn) p.key p.val p.ts now
-          (evict_fresh { s with pending := none } p.key sn now h)
+        exact evictWrite_fresh { s with pending := none } p.key p.val p.ts now sn h
       · simp only [entOut]
         exact entWrite_fresh { s with pending := none } p.key p.val p.ts now h
     · exact ⟨h, freshData_nil _ _⟩
